@@ -3,7 +3,7 @@
 Every oracle is a validity predicate on the returned tables (parent / children / edges / traverse / trees / roots) against a
 reference graph built from the raw case (vlib.topo + vlib.ref_graph); no particular tree is ever expected.
 """
-import math, copy
+import math, copy, contextlib
 import numpy as np
 from collections import Counter
 from hypothesis import strategies as st
@@ -649,6 +649,34 @@ def fn_edge_tree(case, ctx):
 
 # -------------------------------------------------------------------------------------------- sub-check: MST
 
+@contextlib.contextmanager
+def memory_cap(extra=2 << 30):
+    """Soft address-space limit (current size + extra) while a library call runs: if Kruskal ever hands a cyclic edge set to the
+    orientation loop, that loop appends to its queue forever; a MemoryError (reported as a violation) is better than an
+    OOM-killed worker, which would hang the process pool.  Restored afterwards."""
+    try:
+        import resource
+        soft, hard = resource.getrlimit(resource.RLIMIT_AS)
+        with open("/proc/self/statm") as f:
+            cur = int(f.read().split()[0]) * resource.getpagesize()
+        lim = cur + extra
+        if hard != resource.RLIM_INFINITY:
+            lim = min(lim, hard)
+        resource.setrlimit(resource.RLIMIT_AS, (lim, hard))
+    except Exception:
+        resource = None
+    try:
+        yield
+    finally:
+        if resource is not None:
+            resource.setrlimit(resource.RLIMIT_AS, (soft, hard))
+
+
+def compute_capped(tree):
+    with memory_cap():
+        return tree()
+
+
 def check_mst(ctx, tag, tree, n, adm, w, wm, root_expected):
     """tree: computed EdgeMinimalSpanningTree; adm: admissible (a, b, edge key); w: reference weight per edge key"""
     root = tree.root
@@ -773,7 +801,7 @@ def fn_mst(case, ctx):
     ok, tree = ctx.call("mst:construct", lambda: trees.EdgeMinimalSpanningTree(m, np_root(case, case["root"]), avoid_boundary=ab, weights=arg))
     if not ok:
         return
-    ok, r = ctx.call("mst:compute", tree)
+    ok, r = ctx.call("mst:compute", compute_capped, tree)
     if not ok:
         return
     untouched("mst:")
@@ -790,7 +818,7 @@ def fn_mst(case, ctx):
     ok, tree2 = ctx.call("mst:second:construct", lambda: trees.EdgeMinimalSpanningTree(m, np_root(case, r2), avoid_boundary=ab, weights=arg2))
     if not ok:
         return
-    ok, r = ctx.call("mst:second:compute", tree2)
+    ok, r = ctx.call("mst:second:compute", compute_capped, tree2)
     if not ok:
         return
     untouched("mst:second:")
